@@ -49,7 +49,7 @@ Later == kind = "inst" /\ \E w \in Advanced, p \in Signs, t \in Signs, a \in Sig
 \* Powertrain.reset + re-applied initial conditions + a fresh run (same or new Solver): the lock bit is cleared, the motor's
 \* duty cycle and net torque are the FIRST RECORDED ones (any sign), the initial speed is whatever the user re-applies
 Fresh == /\ kind = "inst" /\ kind' = "start" /\ lk' = FALSE
-         /\ pwm' \in Signs /\ tq' \in Signs /\ spd' \in Signs /\ acc' = "0"
+         /\ pwm' \in Signs /\ tq' \in Signs /\ spd' \in Signs /\ acc' = "0"       \* (the restored acceleration is not read by instant 0)
          /\ moved' = FALSE /\ prevLk' = FALSE /\ inForce' = "0" /\ UNCHANGED sl
 ANext == First \/ Later \/ Fresh
 ASpec == AInit /\ [][ANext]_avars
